@@ -451,12 +451,12 @@ func runC07(c *Ctx) error {
 	replayKnownC06(c, "C07", oracleC07)
 	rng := lib.Rng(c.Seed, "c07-scenarios")
 	o := genOpts{MaxLen: 30}
-	budget := 50 * time.Second
-	count := 200
+	budget := 60 * time.Second
+	count := 700
 	if c.Thorough {
 		o = genOpts{MaxLen: 60}
 		budget = 10 * time.Minute
-		count = 3000
+		count = 10000
 	}
 	start := time.Now()
 	rigErrs := 0
